@@ -446,6 +446,7 @@ static void net_tap(int ev, int src, int dst, int comm_id, int tag, const void *
             int i = find_inst(cls, P);
             if (i < 0) { act_garbage++; continue; }
             ACT[i][dst]++;
+            if (getenv("VERIF_MPI_TRACE")) { char nm2[96]; fprintf(stderr, "[ptg t=%llu] ACTIVATION %d->%d of %s mask=0x%lx root=%u len=%u\n", (unsigned long long)sim_now(), src, dst, inst_name(i, nm2, sizeof(nm2)), (unsigned long)h.output_mask, h.root, h.length); }
         }
     }
 }
@@ -610,19 +611,29 @@ static void run(const hx_plan_t *p, hx_result_t *res)
 
 static void annotate(const hx_plan_t *p, char *buf, size_t n)
 {
-    snprintf(buf, n, "[program=%s%s sched=%s threads=%ld ranks=%ld]", PTG_REF.name,
+    long nr = hx_knob(p, "nranks", 1);
+    if (nr > hx_rank_count) nr = hx_rank_count;
+    snprintf(buf, n, "[program=%s%s sched=%s threads=%ld ranks=%ld bcast=%ld]", PTG_REF.name,
 #ifdef PTG_INDEX_ARRAY
              "/index-array",
 #else
              "/hash-table",
 #endif
-             SCHEDS[hx_knob(p, "sched", 0) % NSCHED], hx_knob(p, "nthreads", 2), hx_knob(p, "nranks", 1));
+             SCHEDS[hx_knob(p, "sched", 0) % NSCHED], hx_knob(p, "nthreads", 2), nr, hx_knob(p, "coll_bcast", -1));
 }
 static void describe_abort(char *buf, size_t n)
 {
     int done = 0, total = 0;
     for (int t = 0; t < PTG_MAX_TP; t++) if (tp_slot_is_ptg[t]) for (int i = 0; i < NINST; i++) { total++; if (OBS[t][i].end) done++; }
-    snprintf(buf, n, "%d of %d task instances done", done, total);
+    int o = snprintf(buf, n, "%d of %d task instances done", done, total);
+    /* name the first instance that never ran although all its predecessors finished (a lost release) */
+    char nm[96];
+    for (int t = 0; t < PTG_MAX_TP && o < (int)n - 100; t++) if (tp_slot_is_ptg[t]) for (int i = 0; i < NINST; i++) {
+        if (OBS[t][i].count || OBS[t][i].again) continue;
+        int ready = 1;
+        for (int k = 0; k < INST[i].nin; k++) { dep_t *d = &DEPS[INST[i].in0 + k]; if (d->kind == PTG_K_TASK && !OBS[t][d->inst].end) ready = 0; }
+        if (ready) { snprintf(buf + o, n - o, "; %s (affinity rank %d) never ran although every predecessor finished", inst_name(i, nm, sizeof(nm)), INST[i].aff % (SH.nranks ? SH.nranks : 1)); return; }
+    }
 }
 static void tune(const hx_plan_t *p, sim_params_t *sp)
 {
